@@ -288,8 +288,9 @@ pub struct DwarfUnwinder<'a> {
 /// Hard safety cap to prevent pathological or corrupted DWARF unwind
 /// from running indefinitely or allocating unbounded memory.
 ///
-/// Real-world call stacks are typically far smaller than this value.
-const MAX_UNWIND_DEPTH: usize = 512;
+/// Real-world call stacks are typically far smaller than this value, but a recursion
+/// several hundred activations deep is nothing unusual, and its backtrace must reach `main`.
+const MAX_UNWIND_DEPTH: usize = 4096;
 
 impl<'a> DwarfUnwinder<'a> {
     /// Creates new unwinder.
